@@ -21,7 +21,7 @@ import tlc
 TIERS = {"quick": dict(Depth=2, mode=[]), "thorough": dict(Depth=4, mode=["edges"])}
 
 
-def run(prop, tier, seed):
+def run(prop, tier, seed, only=None):
     t = TIERS[tier]
     c = common.Check(prop, tier, seed, "model_checking")
     cfg = os.path.join(c.work, "MC_Filestore.cfg")
@@ -54,7 +54,8 @@ def run(prop, tier, seed):
             v.get("seq"), v.get("expected_status"), v.get("got_status"), v.get("expected_tree"), v.get("got_tree")),
             {"kind": "requests", "violation": v, "Depth": t["Depth"]})
     # part 2: end to end, through the transaction scripts
-    c2 = cfdp_family.collect(prop, tier, seed, c)
+    common.sweep_jails()
+    c2 = cfdp_family.collect(prop, tier, seed, c, only)
     c.coverage = dict(c2, **{
         "states": part1["states"] + c2["states"],
         "transitions": part1["transitions"] + c2["transitions"],
